@@ -53,8 +53,8 @@ theorem decode_encode (b : IndexBlob) (h : WFBlob b) (rest : Bytes) :
   | none =>
     cases ht : b.tpe <;>
     · simp only [encodeEntry, hu, ht, decodeEntry, List.cons_append, List.append_assoc]
-      have hl : ¬ (le32 b.loc.length ++ (beBytes ID_LEN b.id ++ rest)).length < 4 + ID_LEN := by
-        simp [le32_length, beBytes_length]
+      have hl : ¬ shorterThan (le32 b.loc.length ++ (beBytes ID_LEN b.id ++ rest)) (4 + ID_LEN) = true := by
+        rw [shorterThan_iff]; simp [le32_length, beBytes_length]
       have hd4 : (le32 b.loc.length ++ (beBytes ID_LEN b.id ++ rest)).drop 4 = beBytes ID_LEN b.id ++ rest :=
         List.drop_left' (le32_length _)
       have hd36 : (le32 b.loc.length ++ (beBytes ID_LEN b.id ++ rest)).drop (4 + ID_LEN) = rest := by
@@ -67,8 +67,8 @@ theorem decode_encode (b : IndexBlob) (h : WFBlob b) (rest : Bytes) :
     have hnz : nonZero u = some u := by simp [nonZero]; omega
     cases ht : b.tpe <;>
     · simp only [encodeEntry, hu, ht, decodeEntry, List.cons_append, List.append_assoc]
-      have hl : ¬ (le32 b.loc.length ++ (le32 u ++ (beBytes ID_LEN b.id ++ rest))).length < 8 + ID_LEN := by
-        simp [le32_length, beBytes_length]; omega
+      have hl : ¬ shorterThan (le32 b.loc.length ++ (le32 u ++ (beBytes ID_LEN b.id ++ rest))) (8 + ID_LEN) = true := by
+        rw [shorterThan_iff]; simp [le32_length, beBytes_length]; omega
       have hd4 : (le32 b.loc.length ++ (le32 u ++ (beBytes ID_LEN b.id ++ rest))).drop 4 =
           le32 u ++ (beBytes ID_LEN b.id ++ rest) := List.drop_left' (le32_length _)
       have hd8 : (le32 b.loc.length ++ (le32 u ++ (beBytes ID_LEN b.id ++ rest))).drop 8 =
